@@ -1,10 +1,64 @@
 (* C13 — peering: lower-priority operators pause, exactly the top one is active.
-   Only statements here; proofs in Proofs/Peering.v and Proofs/PeerNet.v.
-   Model: Model/Peering.v (process_peering_event / touch / keepalive period, tied to the code by the
-   differential) and Model/PeerNet.v (N operators + one shared peering object, tied by trace acceptance).
-   Times in ms; [oint]/[odate] are the oracles int(str) / iso8601.parse_date: every theorem holds for ALL of them. *)
+   Only statements here; proofs in Proofs/Peering.v, PeerNet.v, PeerSched.v, PeerLive.v, PeerRefine.v, PeerCompose.v.
+   Models: Model/Peering.v (Peer, process_peering_event, touch, clean, keepalive's period; tied by D:event, D:keepalive)
+           Model/PeerNet.v (N operators + one shared peering object, keep-alive schedule included; tied by T:peernet on
+           real orchestrator/keepalive/watcher/worker/process_peering_event coroutines, D:encoding for the JSON form).
+   Times in ms; [oint]/[odate] are the oracles int(str) / iso8601.parse_date: every theorem holds for ALL of them.
+
+   CLAUSE AUDIT (statement of C13 in properties.jsonl, clause by clause)
+   ---------------------------------------------------------------------------------------------------------------
+   1  an operator that has observed a live peer of higher (or equal) priority is paused
+        full:  C13_paused_iff_blocker (any JSON status: unknown fields, missing fields, dead records),
+               C13_toggle_correct (every schedule), C13_net_decision_is_process (the two models decide alike),
+               C13_operator_paused_iff_live_blocker (operator-wide pause = any CURRENT peering's toggle; composes
+               with C19_paused_iff_current_blocker).   Guard "the call does not raise":
+               C13_toggle_follows_verdict_refuted / _partial (non-numeric priority: outside the quantifier).
+   2  -- watch streams closed
+        covered by C19's model of streaming_block (Model/Watch.v: C19_paused_no_requests_partial / _refuted F1901,
+        C19_list_unpaused_or_retry, C19_fresh_list_on_resume); the link is the boolean `paused` = clause 1.
+        Here: the real streaming_block is run in T:peernet; monitors net-stream-wrong / net-stream-open-while-paused.
+   3  -- daemons stopped
+        covered by C09 (C09_stop_on_pause, C09_killer_pass_reaches_all) through the same boolean.
+        Here: monitored only (world-daemons-wrong on whole operators).
+   4  -- no change handling beyond events already queued
+        covered by C19 (no LIST/WATCH while paused, up to F1901) + C01 (queued events are processed);
+        here: monitored only (whole operators).
+   5  -- no handler executed twice because of the pause
+        NOT proved here.  By composition (names only, not imported): a pause is a stream closure, a resume a fresh
+        listing (C19_fresh_list_on_resume), and re-processing invokes nothing recorded as finished
+        (C02_no_rerun_across_calls, C02_restart_resumes).  What C13 adds: the pause mechanism writes nothing but the
+        peering object (the effect alphabet of Model/Peering.v is clean/turn/touch; D:event rejects any other
+        PATCH).  Monitor: world-double-execution.
+   6  it resumes once every such peer has withdrawn or its keep-alive has expired
+        full for "the latest event is the only one pending" and for "everything processed, wake-up due":
+        C13_resumes_after_expiry, C13_resumes_after_withdrawal, C13_drain_latest (own steps ENABLED, <= 3 of them),
+        C13_takeover_after_kill, C13_operator_resumed_when_no_blocker.
+        Not covered: a bound for an arbitrary backlog of undelivered events (then only safety: C13_toggle_correct
+        once the backlog is processed).
+   7  among running operators with distinct priorities that see each other exactly the highest one ends up active
+        full: C13_exactly_one_active (existence and uniqueness), C13_exactly_top_active, C13_at_most_one_active,
+        C13_equal_priority_conflict (+ C13_top_active_nonvacuous).  Without "see each other": F1301 below.
+   8  also after the active one exits or is killed
+        full: C13_takeover_after_exit, C13_takeover_after_kill, C13_kill_keeps_record + clause 6.
+   9  a running operator renews its record before it expires
+        full for lifetime >= 2, every schedule: C13_own_record_never_expired; the scheduling assumption is explicit:
+        C13_keepalive_is_urgent (timers fire on time, zero API latency); C13_keepalive_margin.
+        lifetime <= 1: C13_renew_before_expiry_refuted / _partial (O1).
+   10 and removes it on graceful exit
+        full: C13_record_withdrawn_on_exit, C13_takeover_after_exit.  "Stays removed":
+        C13_withdrawn_stays_refuted (F1302) / C13_exiting_record_only_by_wake (exactly that step) +
+        C13_withdrawn_stays_partial.
+   11 expired records of others are cleaned up
+        full: C13_cleanup_dead, C13_cleaned_are_gone, C13_observe_latest_leaves_no_expired.  "Only expired ones":
+        C13_clean_only_expired_refuted (F1301) / C13_clean_unchanged_record_is_expired (exactly: the record changed
+        in between) + C13_clean_only_expired_partial.
+   Quantifier: operators / priorities / lifetimes / orders of starts, exits, kills / delivery timing of events and
+   keep-alives = all label sequences of Model/PeerNet.v (C13_net_invariant, C13_sched_invariant); record content =
+   the JSON-level theorems.  One wall clock; PATCH latency only in D:event. *)
 From Coq Require Import ZArith List String Bool.
-From KV Require Import Base.Json Model.Peering Model.PeerNet Proofs.Peering Proofs.PeerNet.
+From KV Require Import Base.Json Model.Peering Model.PeerNet Proofs.Peering Proofs.PeerNet Proofs.PeerSched Proofs.PeerLive
+  Proofs.PeerRefine Proofs.PeerExamples.
+From KV Require Model.Ensemble Proofs.PeerCompose.
 Import ListNotations.
 Open Scope string_scope.
 Open Scope Z_scope.
@@ -223,7 +277,7 @@ Print Assumptions C13_withdrawn_stays_refuted.
 (* ... unless it exits with no armed sleep and nothing undelivered: then it can write nothing any more *)
 Theorem C13_withdrawn_stays_partial : forall s i, op_phase (n_ops s i) = Exiting ->
   op_wake (n_ops s i) = None -> op_inbox (n_ops s i) = [] ->
-  step s (LWake i) = None /\ step s (LKeepalive i) = None /\ step s (LExit i) = None /\
+  step s (LWake i) = None /\ (forall j, step s (LKeepalive i j) = None) /\ step s (LExit i) = None /\
   forall v c t, step s (LObserve i v c t) = None.
 Proof. exact exiting_idle_is_silent. Qed.
 Print Assumptions C13_withdrawn_stays_partial.
@@ -247,3 +301,181 @@ Theorem C13_toggle_follows_verdict_partial : forall oint c t ps,
   Forall (fun p => num_of (p_prio p) <> None) ps -> log_raises oint c t ps = None.
 Proof. exact log_raises_none_numeric. Qed.
 Print Assumptions C13_toggle_follows_verdict_partial.
+
+(* ====================== deepening round: schedule, progress, refinement, composition ====================== *)
+
+(* second invariant, for ALL label sequences: unique record keys, identities of live processes known, keep-alive schedule *)
+Theorem C13_sched_invariant : forall t0 tr s, run (net0 t0) tr = Some s -> Inv2 s.
+Proof. exact reachable_inv2. Qed.
+Print Assumptions C13_sched_invariant.
+
+(* clause 9: whatever record stands under the identity of a running operator (lifetime >= 2, first touch done) is its
+   own, carries its priority and lifetime, is NOT expired, and outlives the next keep-alive — for every schedule *)
+Theorem C13_own_record_never_expired : forall t0 tr s i due, run (net0 t0) tr = Some s ->
+  is_up (n_ops s i) = true -> n_ka s i = Some due -> 2 <= op_life (n_ops s i) ->
+  forall r, In (i, r) (n_status s) ->
+    n_now s < dl_at (n_now s) r /\ due < dl_at (n_now s) r /\ r_prio r = op_prio (n_ops s i) /\ r_life r = op_life (n_ops s i).
+Proof. exact own_record_never_expired. Qed.
+Print Assumptions C13_own_record_never_expired.
+
+Example C13_own_record_nonvacuous : exists s r, run (net0 0) tr_two_ops = Some s /\ is_up (n_ops s "a") = true /\
+  n_ka s "a" = Some 55000 /\ 2 <= op_life (n_ops s "a") /\ In ("a", r) (n_status s).
+Proof. exact own_record_example. Qed.
+
+(* the assumption behind it, explicit: time does not pass a due keep-alive (nor the very first touch) *)
+Theorem C13_keepalive_is_urgent : forall t0 tr s i t s', run (net0 t0) tr = Some s -> is_up (n_ops s i) = true ->
+  step s (LTick t) = Some s' -> exists due, n_ka s i = Some due /\ t <= due.
+Proof. exact keepalive_is_urgent. Qed.
+Print Assumptions C13_keepalive_is_urgent.
+
+Theorem C13_records_unique : forall t0 tr s, run (net0 t0) tr = Some s -> NoDup (map fst (n_status s)).
+Proof. exact records_unique. Qed.
+Print Assumptions C13_records_unique.
+
+(* clause 10, tight: while an operator is exiting, NO step but its own wake-up touch brings its record back *)
+Theorem C13_exiting_record_only_by_wake : forall s l s' i, step s l = Some s' ->
+  op_phase (n_ops s i) = Exiting -> l <> LWake i ->
+  (forall r, ~ In (i, r) (n_status s)) -> (forall r, ~ In (i, r) (n_status s')).
+Proof. exact exiting_record_only_by_wake. Qed.
+Print Assumptions C13_exiting_record_only_by_wake.
+
+Example C13_exiting_nonvacuous : exists s s', run (net0 0) tr_touch_after_exit = Some s /\ op_phase (n_ops s "c") = Exiting /\
+  (forall r, ~ In ("c", r) (n_status s)) /\ step s (LTick 11500) = Some s' /\ LTick 11500 <> LWake "c".
+Proof. exact exiting_example. Qed.
+
+(* clause 11: processing the latest event leaves NO expired record in the object *)
+Theorem C13_observe_latest_leaves_no_expired : forall t0 tr s i v cleaned tg s' snap,
+  run (net0 t0) tr = Some s -> is_up (n_ops s i) = true ->
+  step s (LObserve i v cleaned tg) = Some s' -> op_inbox (n_ops s i) = [(v, snap)] ->
+  forall j r, In (j, r) (n_status s') -> n_now s' < dl_at (n_now s') r.
+Proof. exact observe_latest_leaves_no_expired. Qed.
+Print Assumptions C13_observe_latest_leaves_no_expired.
+
+(* clause 11, tight partial of F1301: whatever the age of the event processed, a removed record that is the one the
+   event showed is expired — a live record can only be removed if it CHANGED between the event and the PATCH *)
+Theorem C13_clean_unchanged_record_is_expired : forall t0 tr s i v cleaned tg s' snap rest,
+  run (net0 t0) tr = Some s ->
+  step s (LObserve i v cleaned tg) = Some s' -> op_inbox (n_ops s i) = (v, snap) :: rest ->
+  forall id r, In id cleaned -> In (id, r) snap -> dl_at (n_now s) r <= n_now s.
+Proof. exact clean_unchanged_record_is_expired_reachable. Qed.
+Print Assumptions C13_clean_unchanged_record_is_expired.
+
+Example C13_clean_nonvacuous : exists s snap s' r, run (net0 0) tr_clean = Some s /\ is_up (n_ops s "a") = true /\
+  op_listed (n_ops s "a") = true /\ op_inbox (n_ops s "a") = [(2%nat, snap)] /\
+  step s (LObserve "a" 2 ["x"] false) = Some s' /\ In ("x", r) snap.
+Proof. exact clean_example. Qed.
+
+(* clause 7: existence AND uniqueness of the active operator *)
+Theorem C13_exactly_one_active : forall t0 tr s ids, run (net0 t0) tr = Some s -> ids <> [] ->
+  (forall i, In i ids -> synced s i) ->
+  (forall i, In i ids -> exists r, In (i, r) (n_status s) /\ r_prio r = op_prio (n_ops s i) /\ n_now s < dl_at (n_now s) r) ->
+  (forall j r, In (j, r) (n_status s) -> n_now s < dl_at (n_now s) r -> In j ids /\ r_prio r = op_prio (n_ops s j)) ->
+  (forall i j, In i ids -> In j ids -> i <> j -> op_prio (n_ops s i) <> op_prio (n_ops s j)) ->
+  exists m, In m ids /\ op_toggle (n_ops s m) = false /\
+            (forall j, In j ids -> op_prio (n_ops s j) <= op_prio (n_ops s m)) /\
+            (forall j, In j ids -> j <> m -> op_toggle (n_ops s j) = true).
+Proof. exact exactly_one_active. Qed.
+Print Assumptions C13_exactly_one_active.
+
+(* clause 6, progress.  With the latest event the only one pending, at most two Observes of the operator itself are
+   enabled and leave it idle with its toggle equal to the presence of a live blocker; records are only removed *)
+Theorem C13_drain_latest : forall t0 tr s i v snap,
+  run (net0 t0) tr = Some s -> is_up (n_ops s i) = true -> op_listed (n_ops s i) = true ->
+  op_inbox (n_ops s i) = [(v, snap)] ->
+  exists tr' s', (List.length tr' <= 2)%nat /\ (forall l, In l tr' -> exists v c b, l = LObserve i v c b) /\
+    run s tr' = Some s' /\ n_now s' = n_now s /\
+    is_up (n_ops s' i) = true /\ op_listed (n_ops s' i) = true /\ op_inbox (n_ops s' i) = [] /\
+    (forall kv, In kv (n_status s') -> In kv (n_status s)) /\
+    op_toggle (n_ops s' i) = has_blocker i (op_prio (n_ops s i)) (n_now s') (n_status s') /\
+    (has_blocker i (op_prio (n_ops s i)) (n_now s) (n_status s) = false ->
+       op_toggle (n_ops s' i) = false /\ op_wake (n_ops s' i) = None).
+Proof. exact drain_latest. Qed.
+Print Assumptions C13_drain_latest.
+
+(* ... expiry (the peer was killed): paused, everything processed, no live blocker left => Wake + <= 2 Observes, all
+   enabled, and the operator is active and idle *)
+Theorem C13_resumes_after_expiry : forall t0 tr s i,
+  run (net0 t0) tr = Some s -> is_up (n_ops s i) = true -> op_listed (n_ops s i) = true ->
+  op_inbox (n_ops s i) = [] -> op_toggle (n_ops s i) = true ->
+  has_blocker i (op_prio (n_ops s i)) (n_now s) (n_status s) = false ->
+  exists tr' s', (List.length tr' <= 3)%nat /\
+    (forall l, In l tr' -> l = LWake i \/ exists v c b, l = LObserve i v c b) /\
+    run s tr' = Some s' /\ n_now s' = n_now s /\ synced s' i /\ op_toggle (n_ops s' i) = false.
+Proof. exact resumes_after_expiry. Qed.
+Print Assumptions C13_resumes_after_expiry.
+
+Example C13_resumes_after_expiry_nonvacuous : exists s, run (net0 0) tr_expired = Some s /\ is_up (n_ops s "a") = true /\
+  op_listed (n_ops s "a") = true /\ op_inbox (n_ops s "a") = [] /\ op_toggle (n_ops s "a") = true /\
+  has_blocker "a" (op_prio (n_ops s "a")) (n_now s) (n_status s) = false.
+Proof. exact expired_example. Qed.
+
+(* ... withdrawal (graceful exit, or any write after which no live blocker is left) *)
+Theorem C13_resumes_after_withdrawal : forall t0 tr s i v snap,
+  run (net0 t0) tr = Some s -> is_up (n_ops s i) = true -> op_listed (n_ops s i) = true ->
+  op_inbox (n_ops s i) = [(v, snap)] ->
+  has_blocker i (op_prio (n_ops s i)) (n_now s) (n_status s) = false ->
+  exists tr' s', (List.length tr' <= 2)%nat /\ (forall l, In l tr' -> exists v c b, l = LObserve i v c b) /\
+    run s tr' = Some s' /\ n_now s' = n_now s /\ synced s' i /\ op_toggle (n_ops s' i) = false.
+Proof. exact resumes_after_withdrawal. Qed.
+Print Assumptions C13_resumes_after_withdrawal.
+
+Example C13_resumes_after_withdrawal_nonvacuous : exists s v snap, run (net0 0) tr_withdrawn = Some s /\
+  is_up (n_ops s "a") = true /\ op_listed (n_ops s "a") = true /\ op_inbox (n_ops s "a") = [(v, snap)] /\
+  op_toggle (n_ops s "a") = true /\ has_blocker "a" (op_prio (n_ops s "a")) (n_now s) (n_status s) = false.
+Proof. exact withdrawn_example. Qed.
+
+(* clause 1, the two models agree: process_peering_event's decision on the JSON form of a status (any oracles that read
+   back the lastseen strings of THESE records; no OverflowError) is the network's decision on the abstract status *)
+Theorem C13_net_decision_is_process : forall oint odate fmt c tg now st,
+  forallb (fun kv => rec_in_range now (snd kv)) st = true -> parses_back odate fmt st ->
+  process oint odate c tg (Some (c_name c)) (Some (enc_status fmt st)) now =
+  match decide_peers c tg (map (apeer now) st) with POk o => POk (Some o) | PErr e => PErr e end.
+Proof. exact process_enc. Qed.
+Print Assumptions C13_net_decision_is_process.
+
+Example C13_net_decision_is_process_nonvacuous :
+  forallb (fun kv => rec_in_range 10000 (snd kv)) ex_st = true /\ parses_back ex_odate ex_fmt ex_st /\
+  exists o, process (fun _ => None) ex_odate (mkCfg "a" 0 60 "default" true) (Some false) (Some "default")
+                    (Some (enc_status ex_fmt ex_st)) 10000 = POk (Some o) /\ o_toggle o = Some true.
+Proof. exact process_enc_example. Qed.
+
+(* clause 1 / 6 composed with C19 (Model/Ensemble.v): after ANY history of insights, with the toggles of the current
+   peerings being those of the networks (removed keys' toggles in any state), the operator is paused iff the mandatory
+   peering CRD is missing or some CURRENT peering object holds a live record of somebody else with priority >= own *)
+Theorem C13_operator_paused_iff_live_blocker :
+  forall (me : string) (nets : Ensemble.key -> net) (t0 : Ensemble.key -> Z) (trs : Ensemble.key -> list label)
+         (hs : list Ensemble.insights) (mandatory : bool) (i : Ensemble.insights) (onk : list Ensemble.key),
+  (forall k, In k (Ensemble.peerings (Ensemble.te (Ensemble.trun_adjust hs))) ->
+     run (net0 (t0 k)) (trs k) = Some (nets k) /\ synced (nets k) me) ->
+  (forall k, In k (Ensemble.peerings (Ensemble.te (Ensemble.trun_adjust hs))) ->
+     Ensemble.mem_key k onk = op_toggle (n_ops (nets k) me)) ->
+  Ensemble.paused_on mandatory i onk (Ensemble.trun_adjust hs) =
+  Ensemble.peering_missing mandatory i ||
+  existsb (fun k => has_blocker me (op_prio (n_ops (nets k) me)) (n_now (nets k)) (n_status (nets k)))
+          (Ensemble.peerings (Ensemble.te (Ensemble.trun_adjust hs))).
+Proof. exact PeerCompose.operator_paused_iff_live_blocker. Qed.
+Print Assumptions C13_operator_paused_iff_live_blocker.
+
+(* ... hence it is resumed as soon as, in every current peering, every such peer has withdrawn or expired *)
+Theorem C13_operator_resumed_when_no_blocker :
+  forall (me : string) (nets : Ensemble.key -> net) (t0 : Ensemble.key -> Z) (trs : Ensemble.key -> list label)
+         (hs : list Ensemble.insights) (mandatory : bool) (i : Ensemble.insights) (onk : list Ensemble.key),
+  (forall k, In k (Ensemble.peerings (Ensemble.te (Ensemble.trun_adjust hs))) ->
+     run (net0 (t0 k)) (trs k) = Some (nets k) /\ synced (nets k) me) ->
+  (forall k, In k (Ensemble.peerings (Ensemble.te (Ensemble.trun_adjust hs))) ->
+     Ensemble.mem_key k onk = op_toggle (n_ops (nets k) me)) ->
+  Ensemble.peering_missing mandatory i = false ->
+  (forall k, In k (Ensemble.peerings (Ensemble.te (Ensemble.trun_adjust hs))) ->
+     has_blocker me (op_prio (n_ops (nets k) me)) (n_now (nets k)) (n_status (nets k)) = false) ->
+  Ensemble.paused_on mandatory i onk (Ensemble.trun_adjust hs) = false.
+Proof. exact PeerCompose.operator_resumed_when_no_blocker. Qed.
+Print Assumptions C13_operator_resumed_when_no_blocker.
+
+Example C13_operator_pause_nonvacuous : exists s,
+  (forall k, In k (Ensemble.peerings (Ensemble.te (Ensemble.trun_adjust [PeerCompose.ex_ins]))) ->
+     run (net0 0) tr_two_ops = Some s /\ synced s "a") /\
+  (forall k, In k (Ensemble.peerings (Ensemble.te (Ensemble.trun_adjust [PeerCompose.ex_ins]))) ->
+     Ensemble.mem_key k [(PeerCompose.ex_res, None)] = op_toggle (n_ops s "a")) /\
+  Ensemble.peerings (Ensemble.te (Ensemble.trun_adjust [PeerCompose.ex_ins])) <> [] /\
+  Ensemble.paused_on false PeerCompose.ex_ins [(PeerCompose.ex_res, None)] (Ensemble.trun_adjust [PeerCompose.ex_ins]) = true.
+Proof. exact PeerCompose.compose_nonvacuous. Qed.
